@@ -654,6 +654,7 @@ func (e *Engine) execTypeSwitch(s *ast.TypeSwitchStmt, st *State, label string) 
 // modified computes the local variables assigned and the heap names written inside nodes.
 type modset struct {
 	ghost map[types.Object]bool
+	tracks map[string]bool // tracked callees (opt track) called inside
 	vars  map[types.Object]bool
 	heaps map[string]bool
 	all   bool
@@ -814,6 +815,16 @@ func (e *Engine) callMods(c *ast.CallExpr, m *modset) {
 		}
 	}
 	fn := e.staticCallee(c)
+	if fn != nil && e.c != nil {
+		for _, n := range strings.Fields(e.c.Opts["track"]) {
+			if n == fn.Name() {
+				if m.tracks == nil {
+					m.tracks = map[string]bool{}
+				}
+				m.tracks[n] = true
+			}
+		}
+	}
 	if fn == nil {
 		// closure variable? inline-able closures are analysed through their body
 		if id, ok := unparen(c.Fun).(*ast.Ident); ok {
@@ -939,6 +950,12 @@ func (m *modset) union(o *modset) {
 	for k := range o.ghost {
 		m.ghost[k] = true
 	}
+	for k := range o.tracks {
+		if m.tracks == nil {
+			m.tracks = map[string]bool{}
+		}
+		m.tracks[k] = true
+	}
 	m.all = m.all || o.all
 	m.alloc = m.alloc || o.alloc
 }
@@ -957,6 +974,20 @@ func (e *Engine) havocLoop(st *State, m *modset, extraHeaps []string) {
 		v := e.havocValue("h_"+obj.Name(), obj.Type())
 		e.refBound(st, v)
 		st.vars[obj] = v
+	}
+	for n := range m.tracks {
+		// ghost records of tracked calls made in the loop: arbitrary at the loop head
+		for _, base := range []string{n, n + ":arg"} {
+			for i := 0; i < 8; i++ {
+				k := e.trackKey(base, i)
+				if v, ok := st.vars[k]; ok {
+					st.vars[k] = e.havocValue("h_track", v.Typ)
+				}
+			}
+		}
+		if v, ok := st.vars[e.trackFlag(n)]; ok {
+			st.vars[e.trackFlag(n)] = e.havocValue("h_called", v.Typ)
+		}
 	}
 	for obj := range m.ghost {
 		nk := e.ghostKey("ncalls", obj)
